@@ -96,7 +96,8 @@ def render_descr(rng, parent, fgs, bgs, mods):
         if both_inherit:
             if not modstr:
                 return parent if rng.random() < 0.8 else parent + ":/"
-            return parent + ":" + modstr if rng.random() < 0.7 else parent + ":/:" + modstr
+            # (the colours section may be spelled out as empty: "P:bold", "P:/:bold", "P::bold", "P: :bold")
+            return parent + ":" + modstr if rng.random() < 0.6 else parent + rng.choice([":/:", "::", ": :"]) + modstr
         if colstr == "":
             colstr = "/"
         return parent + ":" + colstr + (":" + modstr if modstr else "")
@@ -646,9 +647,52 @@ def built_in_amended_case(ctx, k):
                       {"ids": bad, "shown": str({s: got[s] for s in bad})[:200], "step": "built-in items amended"}, case)
 
 
+def bare_class_case(ctx, k):
+    """a configuration class without built-in descriptions (an application that wants none of the package's items): all
+    it knows is what its constructor was given - items that refer to each other, looked at right away; the middle
+    section of a description may be left empty"""
+    ctx.evaluated()
+    import random as _random
+    rng = _random.Random(k)
+    bare = type("VfBareConfig%d" % k, (ColorsConfig,), {"BUILT_IN_CONFIG": {}})
+    red, blue, green = (('c', 1), ('c', 4), ('c', 2))
+    mid = rng.choice(["", " ", ""])
+    flat = [("B0.ROOT", "RED:bold"), ("B0.KID", "B0.ROOT:/BLUE"), ("B1.GRAND", "B0.KID:%s:underline,no_bold" % mid),
+            ("SOLO", "GREEN"), ("B1.LAST", "B1.GRAND:%s:bold" % mid), ("ECHO", "SOLO")]
+    rng.shuffle(flat)
+    init = {}
+    for sid, descr in flat:
+        if "." in sid:
+            init.setdefault(sid.split(".")[0], {})[sid.split(".")[1]] = descr
+        else:
+            init[sid] = descr
+    want = {"B0.ROOT": (red, None, frozenset({'bold'})), "B0.KID": (red, blue, frozenset({'bold'})),
+            "B1.GRAND": (red, blue, frozenset({'underline'})), "SOLO": (green, None, frozenset()),
+            "B1.LAST": (red, blue, frozenset({'underline', 'bold'})), "ECHO": (green, None, frozenset())}
+    case = {"kind": "bare-class", "k": k}
+    try:
+        conf = bare(init, no_color=False) if k % 2 else bare(init)
+        got = {sid: shown_state(conf.get_color(sid)) for sid in want}
+        pal_cls = type("VfBarePalette%d" % k, (Palette,), {"last": ConfColor("B1.LAST"), "echo": ConfColor("ECHO")})
+        pal = pal_cls(conf)
+        got_pal = (shown_state(pal.last), shown_state(pal.echo))
+    except Exception as err:
+        ctx.violation("valid-configuration-rejected", {"type": type(err).__name__, "msg": str(err)[:200],
+                                                       "init": str(init)[:300]}, case)
+        return
+    ctx.count("configuration_classes_without_built_in_items")
+    if got != want or got_pal != (want["B1.LAST"], want["ECHO"]):
+        bad = sorted(sid for sid in want if got.get(sid) != want[sid])
+        ctx.violation("formatter-differs-from-resolved-description",
+                      {"ids": bad, "shown": str({sid: got[sid] for sid in bad})[:200],
+                       "step": "right after the constructor of a class without built-in items"}, case)
+
+
 def run_shard(ctx):
     for k in range(3):
         built_in_amended_case(ctx, ctx.shard * 10 + k)
+    for k in range(6):
+        bare_class_case(ctx, ctx.shard * 10 + k)
     if ctx.shard == 0:
         long_chain_case(ctx)
     for i in range(ctx.cases):
@@ -681,6 +725,9 @@ def replay(ctx, case):
         return
     if case.get("kind") == "built-in-amended":
         built_in_amended_case(ctx, 900 + case["k"])
+        return
+    if case.get("kind") == "bare-class":
+        bare_class_case(ctx, case["k"])
         return
     _replay(ctx, case)
 
